@@ -27,7 +27,7 @@ ASSUMPTIONS = ["a thread switch inside a single C call (deque.append, dict get/s
                "happen at line boundaries of the transport modules, including inside the defaultdict factory lambda",
                "per-consumer order only: cross-consumer receive order is not observable without perturbing the schedule"]
 REQUIRED_PROBES = ["switch_inside_transport", "two_publishers_same_fresh_channel", "wildcard_subscription", "callback_mode",
-                   "subscription_closed_early"]
+                   "subscription_closed_early", "subscription_closed_by_other_task"]
 CONFIG = {
     "quick": {"runs": 60000, "budget_s": 240, "timeout_s": 20, "per_fork": 25},
     "thorough": {"runs": 3000000, "budget_s": 1500, "timeout_s": 20, "per_fork": 50},
@@ -35,7 +35,7 @@ CONFIG = {
 }
 TARGETS = ("execution/transport/in_memory.py", "execution/transport/base.py")
 CHANNELS = ["jobs.a.cfg", "jobs.b.cfg", "jobs.a.status", "data.x", "data.y"]
-PATTERNS = ["*", "jobs.*", "jobs.*.cfg", "jobs.a.*", "data.?", "jobs.a.cfg", "data.x"]
+PATTERNS = ["*", "jobs.*", "jobs.*.cfg", "jobs.a.*", "data.?", "jobs.a.cfg", "data.x", "data.[xy]", "jobs.?.cfg", "jobs.[ab].status"]
 
 
 def generate(rng: random.Random, tier: str, seed: int) -> dict:
@@ -59,7 +59,8 @@ def generate(rng: random.Random, tier: str, seed: int) -> dict:
     for _ in range(nsub):
         subs.append({"pattern": rng.choice(PATTERNS), "rounds": rng.randint(1, 3), "callback": rng.random() < 0.2,
                      "pause": rng.choice([0.0, 0.0005, 0.003]),
-                     "close_after": rng.choice([None, None, None, 1, 2])})   # close() the subscription after k messages
+                     "close_after": rng.choice([None, None, None, 1, 2]),    # close() the subscription after k messages
+                     "closer": rng.random() < 0.2})                            # ANOTHER task close()s the subscription at some point
     return {"existing": existing, "pubs": pubs, "subs": subs, "strategy": rng.choice(threads.STRATEGIES),
             "sched_seed": rng.getrandbits(48), "choices": None}
 
@@ -113,6 +114,8 @@ def execute(sc: dict, seed: int) -> dict:
                         tr.subscribe(spec["pattern"], callback=lambda m, w=cbname: take(m, w))
                     else:
                         sub = tr.subscribe(spec["pattern"])
+                        if spec.get("closer"):
+                            sched.spawn(f"closer{sid}_{r}", lambda s=sub: (threads.sim_sleep(0.0003), s.close(), sched.probe("closed_by_other_task")))
                         taken = 0
                         for msg in sub:
                             take(msg)
@@ -132,9 +135,20 @@ def execute(sc: dict, seed: int) -> dict:
         outcome = sched.run(wall_timeout=15.0)
         # final drain (single-threaded, after all tasks finished)
         drained = []
+        unmatched_left: list = []
         if outcome == "completed":
+            # "delivered to a consumer of a matching subscription": once everything is quiescent, a fresh subscription
+            # with pattern P yields EVERY remaining message whose channel matches P
+            for i, spec in enumerate(sc["subs"]):
+                got = [m.data for m in tr.subscribe(spec["pattern"])]
+                received[f"drain_{i}"] = got
+                for m in got:
+                    if not fnmatch.fnmatch(m[1], spec["pattern"]):
+                        bad_pattern.append((f"drain_{i}", spec["pattern"], m))
             for msg in tr.subscribe("*"):
                 drained.append(msg.data)
+            for i, spec in enumerate(sc["subs"]):
+                unmatched_left += [(spec["pattern"], m) for m in drained if fnmatch.fnmatch(m[1], spec["pattern"])]
         received["drain"] = drained
     viols = []
     if outcome != "completed":
@@ -171,6 +185,8 @@ def execute(sc: dict, seed: int) -> dict:
         # "a subscription only yields messages whose channel matches its pattern"
         if bad_pattern:
             viols.append(oracles.V("pattern", "non_matching_delivery", f"{bad_pattern[:3]}"))
+        if unmatched_left:
+            viols.append(oracles.V("pattern", "matching_message_not_yielded", f"a quiescent subscription left matching messages behind: {unmatched_left[:3]}"))
     inside = [s for s in sched.switches if s[1] in ("in_memory.py", "base.py")]
     if inside:
         stats["probe.switch_inside_transport"] = 1
@@ -185,6 +201,8 @@ def execute(sc: dict, seed: int) -> dict:
         stats["probe.wildcard_subscription"] = 1
     if any(s["callback"] for s in sc["subs"]):
         stats["probe.callback_mode"] = 1
+    if sched.probes.get("closed_by_other_task"):
+        stats["probe.subscription_closed_by_other_task"] = 1
     if sched.probes.get("early_close"):
         stats["probe.subscription_closed_early"] = 1
     if sched.probes.get("line_in_lambda"):
@@ -223,7 +241,7 @@ def shrink_candidates(sc: dict):
     if sc["existing"]:
         yield dict(sc, existing=[])
     for i, s in enumerate(sc["subs"]):
-        if s["rounds"] > 1 or s["callback"] or s["pause"] or s.get("close_after"):
-            yield dict(sc, subs=sc["subs"][:i] + [dict(s, rounds=1, callback=False, pause=0.0, close_after=None)] + sc["subs"][i + 1:])
+        if s["rounds"] > 1 or s["callback"] or s["pause"] or s.get("close_after") or s.get("closer"):
+            yield dict(sc, subs=sc["subs"][:i] + [dict(s, rounds=1, callback=False, pause=0.0, close_after=None, closer=False)] + sc["subs"][i + 1:])
     if sc["strategy"].get("kind") != "pct" or sc["strategy"].get("d", 0) > 1:
         yield dict(sc, strategy={"kind": "pct", "d": 1})
